@@ -441,9 +441,11 @@ static void hostile_case(uint64_t idx, rng_t *r) {
             /* every truncation for short encodings, sampled ones otherwise */
             size_t full = (ep == EP_GAMMA || ep == EP_EDELTA) ? h.bits : h.n;
             size_t fulln = h.n, fullbits = h.bits;
-            size_t steps = full <= 160 ? full : 40;
+            size_t steps = full <= 160 ? full : 40 + 24;
             for (size_t s = 0; s < steps; s++) {
-                size_t cut = full <= 160 ? s : rng_below(r, full);
+                /* long encodings: 40 sampled cuts, then the last 16 positions and 8 cuts just inside the head */
+                size_t cut = full <= 160 ? s : s < 40 ? rng_below(r, full) : s < 56 ? full - 1 - (s - 40) : s - 56;
+                if (full > 160 && s >= 40) STAT_INC("c14_tail_and_head_cuts_of_long_encodings");
                 h.n = fulln;
                 h.bits = fullbits;
                 derive(ep, r, &h, 1, cut);
